@@ -13,7 +13,7 @@ RULE = ('one case = one real audit of a generated peer (random and boundary name
         'Oracle, relational inside the same report plus first-appeared facts read from the live table: removals/changes subset of advertised-and-rated, rated names known in the identified version are recommended unless the report '
         'says they are outside the operator\'s control, critical <=> has a failure note, additions are unadvertised / clean / not certificate, security-key or pseudo algorithms / available in the identified version, nothing both ways, '
         'unrecognised software gets no additions.  Non-trivial: the report carried >= 1 recommendation or >= 1 rated algorithm; distinct = distinct (peer, banner, rendering)')
-REQUIRED = {'multi_target_entries': 8, 'audits_completed': 100, 'recs_checked': 500, 'rated_names_checked': 300, 'additions_checked': 100, 'unrecognised_software': 10, 'json_runs': 30}
+REQUIRED = {'categories_with_only_changes': 3, 'multi_target_entries': 8, 'audits_completed': 100, 'recs_checked': 500, 'rated_names_checked': 300, 'additions_checked': 100, 'unrecognised_software': 10, 'json_runs': 30}
 ASSUMPTIONS = ['"known in the identified version" = the database does not say the algorithm appeared later or only in another product (entries without version information count as known)',
                'version order is numeric (C14 model); when one version is a strict prefix of the other the comparison is don\'t-care',
                'client audits are not part of this property (recommendations are addressed to server operators)']
@@ -96,7 +96,7 @@ def cases(tier, seed):
     others = [('TinySSH', 'noversion', 'tinyssh_noversion'), ('PuTTY', '0.80', 'PuTTY_Release_0.80'), (None, None, 'FooSSH_1.0'), (None, None, 'Cisco-1.25'), (None, None, None), ('TinySSH', '20240101', 'tinyssh_20240101')]
     cs = []
     n = 220 if tier == 'quick' else 4000
-    profiles = ['db', 'asym', 'sizes', 'terrapin', 'gss', 'unknown', 'big', 'weak', 'db', 'asym-weak']
+    profiles = ['db', 'asym', 'sizes', 'terrapin', 'gss', 'unknown', 'big', 'weak', 'db', 'asym-weak', 'lone-change']
     for i in range(4 if tier == 'quick' else 40):
         cs.append({'kind': 'multi', 'seed': rng.randrange(1 << 30), 'threads': [1, 2][i % 2], 'render': 'json'})
     for i in range(n):
@@ -148,6 +148,11 @@ def build(c):
         bits = rng.choice([1024, 2048, 3072, 4096])
         hk = gen.hostkeys_for(k['key'], {t: {'type': 'rsa', 'bits': bits} for t in ('ssh-rsa', 'rsa-sha2-256', 'rsa-sha2-512')})
         gex = {'sizes': [rng.choice([1024, 2048, 3072, 4096])], 'style': rng.choice(['strict', 'openssh'])}
+    if prof == 'lone-change':
+        # a host-key list with nothing to add and nothing to remove, whose RSA key is 2048 bits: the only recommendation of the category is a change
+        k['key'] = ['ssh-ed25519', 'rsa-sha2-256'] + ([] if c['product'] == 'Dropbear SSH' else ['rsa-sha2-512'])
+        k['kex'] = ['curve25519-sha256'] + [x for x in k['kex'] if x != 'curve25519-sha256'][:2]
+        hk = gen.hostkeys_for(k['key'], {t: {'type': 'rsa', 'bits': 2048} for t in ('rsa-sha2-256', 'rsa-sha2-512')})
     banner = 'SSH-2.0' + ('-' + c['software'] if c['software'] else '')
     return {'banner': banner, 'kex': k, 'hostkeys': hk, 'gex': gex}
 
@@ -233,6 +238,10 @@ def check_doc(c, script, doc, text):
     minus = {(cat, n) for (sgn, n, cat, _l) in recs if sgn in ('-', '!')}
     plus = {(cat, n) for (sgn, n, cat, _l) in recs if sgn == '+'}
     counters['recs_checked'] = len(recs)
+    for cat in adv:
+        signs = {sgn for (sgn, n, cat_, _l) in recs if cat_ == cat}
+        if signs == {'!'}:
+            counters['categories_with_only_changes'] = counters.get('categories_with_only_changes', 0) + 1
     # 1. removals / changes are advertised and rated in this report
     for (sgn, n, cat, lvl) in recs:
         if sgn in ('-', '!'):
